@@ -175,6 +175,13 @@ func c01probes() []c01probe {
 		{Name: "Node", Var: "v1", Attr: &m.Attr{Type: &m.Type{Kind: m.Int}, V: &m.Validation{Enum: []value.V{value.Int(1), value.Int(42)}}}},
 		{Name: "Item", Var: "v3", Attr: rt.Obj(rt.Fld("rank", m.UserRef("Node"), false))}}, nil,
 		&m.Method{Name: "m", Streaming: "payload", StreamingPayload: m.UserRef("Item"), HTTP: &m.HTTPEndpoint{Routes: route("GET", "/m")}}))
+	{
+		dv := value.Str("\tZ\nx")
+		zone := m.Prim(m.String)
+		zone.Default = &dv
+		add("C01-openapi-extension-and-tab-led-multiline-string-gen-fails", pdesign(nil, nil, &m.Method{Name: "m", Payload: rt.Obj(rt.Fld("zone", zone, false)),
+			HTTP: &m.HTTPEndpoint{Routes: route("PUT", "/m"), Headers: []m.Mapping{{Attr: "zone", Wire: "X-A"}}, Meta: [][]string{{"openapi:extension:x-ep", `{"a":1}`}}}}))
+	}
 	// fixed findings: the minimal designs that used to fail
 	add("C01-openapi3-streaming-endpoint-several-routes-panics", pdesign(nil, nil, &m.Method{Name: "m", Streaming: "result", Result: rt.Obj(rt.Fld("ratio", m.Prim(m.Int), false)),
 		HTTP: &m.HTTPEndpoint{Routes: []m.Route{{Verb: "GET", Path: "/m"}, {Verb: "GET", Path: "/m/alt"}}}}))
